@@ -1436,6 +1436,11 @@ class Interp:
                 if T is ast.FloorDiv:
                     return SInt(z3.If(y > 0, x / y, (-x) / (-y)))
                 return SInt(z3.If(y > 0, x % y, -((-x) % (-y))))
+            if T is ast.BitAnd:
+                # x & (2^k - 1) == x mod 2^k for Python's unbounded two's-complement ints (also for negative x); other masks are outside the subset
+                for v, m in ((a, b), (b, a)):
+                    if isinstance(m, int) and not isinstance(m, bool) and m >= 0 and (m & (m + 1)) == 0:
+                        return SInt(to_z3_int(v) % (m + 1))
             raise Unsupported(f"symbolic operator {T.__name__}")
         try:
             if T is ast.Add:
